@@ -314,7 +314,7 @@ class MessageManager(ClientLike):
                 self.remove_module(module)
                 return False
 
-            for m in self.modules.values():
+            for m in list(self.modules.values()):
                 if m is module:
                     continue
 
@@ -844,7 +844,7 @@ class MessageManager(ClientLike):
         msg = cd.MDF_ACTIVE_CLIENTS()
         msg.timestamp = time.perf_counter()
 
-        for i, (sock, module) in enumerate(self.modules.items()):
+        for i, (sock, module) in enumerate(list(self.modules.items())):
             # if sock == self.listen_socket:
             #     continue
             if i < cd.MAX_ACTIVE_CLIENTS:
